@@ -90,6 +90,14 @@ func (u *inputSpec) cases(fn func(c *h.Case) bool) {
 				if !fn(c) {
 					return
 				}
+				// the same option combinations with the fields sharing one cell per
+				// Boolean value (fresh instance only: the form only matters to the build)
+				for _, o := range u.opts {
+					c := &h.Case{Keys: u.sc.Keys, ValIDs: v.ids, Enc: enc, Opt: o, SharedCells: true}
+					if !fn(c) {
+						return
+					}
+				}
 			}
 		}
 	}
@@ -291,7 +299,7 @@ func evalTrieCase(w *h.Worker, c *h.Case, u *inputSpec, oracle trieOracle, recor
 	// prefixes and tails of its own) is built between this build and its
 	// questions; whatever the build path shares between tries is overwritten by it
 	{
-		bc := &h.Case{Keys: bystanderKeys, Enc: c.Enc, Opt: c.Opt, NoOptArg: c.NoOptArg}
+		bc := &h.Case{Keys: bystanderKeys, Enc: c.Enc, Opt: c.Opt, NoOptArg: c.NoOptArg, SharedCells: c.SharedCells}
 		if c.ValIDs != nil {
 			bc.ValIDs = []int{3, 2, 2, 1}
 		}
@@ -305,7 +313,11 @@ func evalTrieCase(w *h.Worker, c *h.Case, u *inputSpec, oracle trieOracle, recor
 		measure(w, b, stream)
 		w.Sample(map[string]interface{}{"scaffold": u.sc.Name, "case": c.Brief(), "queries": len(u.qs), "instances": u.insts})
 	}
-	for _, inst := range u.insts {
+	insts := u.insts
+	if c.SharedCells {
+		insts = []string{h.InstFresh}
+	}
+	for _, inst := range insts {
 		var st *trie.SlimTrie
 		var lerr error
 		pp := h.Safely(func() {
